@@ -41,6 +41,7 @@ type HarnessSpec struct {
 	Havoc   []string               `json:"havoc"`
 	ForkAll []string               `json:"fork_all"`
 	NativeRedirect bool            `json:"native_redirect"`
+	Typecheck []string             `json:"typecheck"` // "goos/goarch" targets: the current tree must load (type-check + SSA) for each
 	Solver  []string               `json:"solver"`
 }
 
@@ -349,7 +350,53 @@ func runProp(prop, tier string, workers int, debug bool, only string, noReplay b
 			arches[h.Arch] = true
 		}
 	}
-	if len(jobs) == 0 {
+	// portability targets: the front end must accept the current tree for every listed GOOS/GOARCH
+	tcFail := 0
+	var tcResults []jobResult
+	for _, h := range ps.Harnesses {
+		if h.Prop != prop || len(h.Typecheck) == 0 {
+			continue
+		}
+		type tr struct {
+			tgt string
+			err error
+			dt  time.Duration
+		}
+		ch := make(chan tr, len(h.Typecheck))
+		sem := make(chan struct{}, 4)
+		for _, tgt := range h.Typecheck {
+			go func(tgt string) {
+				sem <- struct{}{}
+				defer func() { <-sem }()
+				t1 := time.Now()
+				parts := strings.SplitN(tgt, "/", 2)
+				_, err := sym.LoadOS(repoDir, parts[0], parts[1], nil, "./...")
+				ch <- tr{tgt, err, time.Since(t1)}
+			}(tgt)
+		}
+		for range h.Typecheck {
+			r := <-ch
+			res := &sym.Result{Harness: h.Fn + "[" + r.tgt + "]", Wall: r.dt, Covers: map[string]bool{}, Obligations: 1}
+			if r.err != nil {
+				tcFail++
+				dir := filepath.Join(verifDir, "replay", prop)
+				os.MkdirAll(dir, 0o755)
+				path := filepath.Join(dir, "typecheck-"+strings.ReplaceAll(r.tgt, "/", "_")+".json")
+				b, _ := json.MarshalIndent(map[string]interface{}{"property": prop, "typecheck": r.tgt, "failed": r.err.Error()}, "", " ")
+				os.WriteFile(path, b, 0o644)
+				fmt.Printf("  the module does not type-check for %s:\n%s\n", r.tgt, firstLines(r.err.Error(), 6))
+				fmt.Printf("VIOLATION property=%s replay=%s\n", prop, path)
+				res.Err = ""
+				res.Violations = []sym.Violation{{Kind: "typecheck", Msg: r.tgt}}
+			} else {
+				res.Discharged = 1
+				res.Nondets = 1
+				fmt.Printf("  type-check %-16s ok (%.1fs)\n", r.tgt, r.dt.Seconds())
+			}
+			tcResults = append(tcResults, jobResult{job{h, nil}, res})
+		}
+	}
+	if len(jobs) == 0 && len(tcResults) == 0 {
 		fmt.Printf("no harness registered for %s tier %s\n", prop, tier)
 		return 2
 	}
@@ -420,7 +467,7 @@ func runProp(prop, tier string, workers int, debug bool, only string, noReplay b
 		wg.Wait()
 		close(rc)
 	}()
-	var results []jobResult
+	results := append([]jobResult(nil), tcResults...)
 	for r := range rc {
 		results = append(results, r)
 		status := "ok"
@@ -441,7 +488,10 @@ func runProp(prop, tier string, workers int, debug bool, only string, noReplay b
 	})
 	// classify
 	exit := 0
-	nviol := 0
+	nviol := tcFail
+	if tcFail > 0 {
+		exit = 1
+	}
 	var notes []string
 	knownSeen := map[string]bool{}
 	replayed := map[string]int{}
@@ -468,6 +518,9 @@ func runProp(prop, tier string, workers int, debug bool, only string, noReplay b
 			}
 		}
 		for vi, v := range r.res.Violations {
+			if v.Kind == "typecheck" {
+				continue
+			}
 			if k, ok := openKnown[v.Known]; ok && v.Known != "" {
 				if !knownSeen[k.ID] {
 					fmt.Printf("KNOWN-FINDING: property=%s %s [%s]\n", prop, k.What, k.ID)
@@ -563,6 +616,17 @@ func nativeReplay(path string) (bool, string) {
 	b, err := os.ReadFile(path)
 	if err != nil {
 		return false, err.Error()
+	}
+	var tc struct {
+		Typecheck string `json:"typecheck"`
+	}
+	if json.Unmarshal(b, &tc) == nil && tc.Typecheck != "" {
+		parts := strings.SplitN(tc.Typecheck, "/", 2)
+		cmd := exec.Command("go", "build", "./...")
+		cmd.Dir = repoDir
+		cmd.Env = append(os.Environ(), "GOFLAGS=-mod=mod", "GOPROXY=off", "GOOS="+parts[0], "GOARCH="+parts[1], "CGO_ENABLED=0")
+		out, err := cmd.CombinedOutput()
+		return err != nil, string(out)
 	}
 	var doc replayDoc
 	if err := json.Unmarshal(b, &doc); err != nil {
@@ -930,4 +994,12 @@ func redirectOverlay(redirects map[string]string, existing map[string]string) ma
 		}
 	}
 	return out
+}
+
+func firstLines(s string, n int) string {
+	ls := strings.Split(s, "\n")
+	if len(ls) > n {
+		ls = ls[:n]
+	}
+	return strings.Join(ls, "\n")
 }
